@@ -119,7 +119,7 @@ def realnet_pass(ctx, res):
     from ..realnet import orch
     for k in range(1 if ctx.quick else 10):
         rng = ctx.rng('realnet', k)
-        scn = scenarios.gen_general(rng, rng.randrange(1 << 30), faults=('kill', 'late'))
+        scn = scenarios.gen_general(rng, rng.randrange(1 << 30), faults=('kill', 'late'), tcp=False)      # real sockets: 16 shards share one machine, so no fixed TCP ports here
         scn.pop('loss', None)
         try:
             w = orch.run_real(scn, max_wall_s=12 if scn.get('faults') else 40)
